@@ -12,3 +12,35 @@ Theorem C09_post_image_relational :
    exists x, In x (states_of szS K) /\ set_mem K rS s x = true /\ rel_mem K rR r x y = true).
 Proof. intros. now apply post_dd_relational. Qed.
 Print Assumptions C09_post_image_relational.
+
+(** the pre-image: states with an outgoing edge to a member *)
+Theorem C09_pre_image_relational :
+  forall (szS : nat -> nat), (forall k, 1 <= szS k) ->
+  forall K (rS rR rOut : rule) s r x,
+  valid szS x -> is_ir rOut && Nat.odd K = false ->
+  (eval rOut K (pre_dd szS K rS rR rOut s r) x = 1%Z <->
+   exists y, In y (states_of szS K) /\ set_mem K rS s y = true /\ rel_mem K rR r x y = true).
+Proof. intros. now apply pre_dd_relational. Qed.
+Print Assumptions C09_pre_image_relational.
+
+(** vector-matrix and matrix-vector products: the sum over the shared index of
+    the products of the entries *)
+Theorem C09_vector_matrix_product :
+  forall (szS : nat -> nat), (forall k, 1 <= szS k) ->
+  forall K (rS rR rOut : rule) v m y,
+  valid szS y -> is_ir rOut && Nat.odd K = false ->
+  eval rOut K (vm_dd szS K rS rR rOut v m) y
+  = fold_left Z.add
+      (map (fun x => (eval rS K v x * eval rR (2 * K) m (pair_asg x y))%Z) (states_of szS K)) 0%Z.
+Proof. intros. now apply vm_dd_eval. Qed.
+Print Assumptions C09_vector_matrix_product.
+
+Theorem C09_matrix_vector_product :
+  forall (szS : nat -> nat), (forall k, 1 <= szS k) ->
+  forall K (rS rR rOut : rule) m v x,
+  valid szS x -> is_ir rOut && Nat.odd K = false ->
+  eval rOut K (mv_dd szS K rS rR rOut m v) x
+  = fold_left Z.add
+      (map (fun y => (eval rR (2 * K) m (pair_asg x y) * eval rS K v y)%Z) (states_of szS K)) 0%Z.
+Proof. intros. now apply mv_dd_eval. Qed.
+Print Assumptions C09_matrix_vector_product.
